@@ -16,7 +16,8 @@ open Proto Grid
       lin    <x0> <x1> <M0> <M1> <x>            -> <value> <grad>
       par    <x1> <dx> <M0> <M1> <M2> <x>       -> <value> <grad>
       bc     <xs> <ns>                          -> <list> | ERR
-      linrun <lb> <delta> <dec> <ns> <table> <calls>  -> per call `<values>:<grads>` or ERR, `;`-separated
+      linrun <lb> <delta> <dec> <ns> <table> <calls>  -> per call `<values>:<grads>` or ERR, `;`-separated, then ` store-same|store-changed`
+         (the table is the store of arrays owned by the manifold function; post-store vs pre-store)
       parrun <lb> <delta> <dec> <ns> <table> <calls>
          table = `sid:gridparams:values;…`, calls = `sid:xs;…`
 -/
@@ -27,14 +28,16 @@ def fO (o : Option Float) : String := match o with | some x => fF x | none => "E
 
 def semis (s : String) : List String := if s == "-" then [] else s.splitOn ";"
 
-def pTable (s : String) : Int → List Float → List Float :=
-  let entries : List (Int × List Float × List Float) := (semis s).filterMap fun e =>
+def pStore (s : String) : Store Float :=
+  (semis s).filterMap fun e =>
     match e.splitOn ":" with
-    | [sid, g, v] => some (pI sid, pList pF g, pList pF v)
+    | [sid, g, v] => some ((pI sid, pList pF g), pList pF v)
     | _ => none
-  fun sid g => match entries.find? (fun e => e.1 == sid && e.2.1 == g) with
-    | some e => e.2.2
-    | none => []
+
+def fStore (pre post : Store Float) : String :=
+  -- bit patterns, so that a changed sign of zero or a NaN would show as well
+  let bits (st : Store Float) := st.map fun e => (e.1.1, e.1.2.map Float.toBits, e.2.map Float.toBits)
+  if bits pre == bits post then "store-same" else "store-changed"
 
 def pCalls (s : String) : List (Int × List Float) :=
   (semis s).filterMap fun e => match e.splitOn ":" with
@@ -87,9 +90,13 @@ def answer (line : String) : String :=
       | some l => fListD fF l
       | none => "ERR"
   | ["linrun", lb, d, dec, ns, table, calls] =>
-      fRes (linRun (pG lb d dec) (pTable table) (pList pN ns) none (pCalls calls))
+      let st := pStore table
+      let r := linRunS (pG lb d dec) (pList pN ns) st none (pCalls calls)
+      s!"{fRes r.2} {fStore st r.1}"
   | ["parrun", lb, d, dec, ns, table, calls] =>
-      fRes (parRun (pG lb d dec) (pTable table) (pList pN ns) none (pCalls calls))
+      let st := pStore table
+      let r := parRunS (pG lb d dec) (pList pN ns) st none (pCalls calls)
+      s!"{fRes r.2} {fStore st r.1}"
   | _ => "bad-op"
 
 def main : IO Unit := do loop (← IO.getStdin) answer
